@@ -190,24 +190,44 @@ def check_with(P, ctx):
         ok = ok and e[0] == 'assign' and e[2] == v[2] and ir.top_nocast(ir.top_nocast(e[3])[2][0]) == v[2]
         ok = ok and g.must_pass(conds[0]['id'], [sp[0]['id']], start=body[0]['id']) and sp[0].get('loop_inc')
     ctx.check(ok, rule, 'with:expansion', site(f), 'with(x in S) runs the body once between start_in(S) and stop_in(x)')
-    # stop_in: calls the stop slot when present, returns NULL on every path
+    # stop_in: calls the stop slot when present, returns NULL on every path (evaluated: type with/without Start, member set/empty)
+    from . import cint
     f = P.fn('stop_in')
-    g = P.cfg(f)
     ctx.fn(f)
-    rets = [n for n in g.live() if n['kind'] == 'ret']
-    ok = bool(rets) and all(ir.is_null(n['expr']) for n in rets)
-    ctx.check(ok, rule, 'stop_in:returns-null', site(f), 'stop_in returns NULL on every path, so the with loop runs its body exactly once')
-    ind = [n for n in g.live() if n['expr'] is not None and any(ir.callee_name(c) is None and
-           ir.top_nocast(c[1])[0] == 'arrow' and ir.top_nocast(c[1])[2] == 'stop' for c in ir.calls(n['expr']))]
-    ok = len(ind) == 1
-    if ok:
-        # reached whenever instance and member are non-null
-        c = [c for c in ir.calls(ind[0]['expr']) if ir.callee_name(c) is None][0]
-        ok = ir.top_nocast(c[2][0]) == ('param', 'self', 0)
-        inst = [n for n in g.live() if n.get('decl') and n['decl']['init'] is not None and
-                any(ir.callee_name(x) == 'instance' and ir.top_nocast(x[2][1]) == ('global', 'Start') for x in ir.calls(n['decl']['init']))]
-        ok = ok and len(inst) == 1
-    ctx.check(ok, rule, 'stop_in:calls-stop', site(f), 'stop_in invokes the Start.stop member of the object\'s own type on the object')
+    SELF_, FN = 5000, 4242
+    bad_ret, bad_call, unsup = None, None, None
+    for has_inst in (0, 1):
+        for has_member in (0, 1):
+            events = []
+
+            def call(nm, e, it, has_inst=has_inst, events=events):
+                if nm is None:
+                    events.append((it.ev(e[1]), [it.ev(x) for x in e[2]]))
+                    return 0
+                if nm == 'instance':
+                    if it.ev(e[2][0]) != SELF_ or ir.top_nocast(e[2][1]) != ('global', 'Start'):
+                        events.append(('instance of something else', []))
+                    return ('ep', 'inst', 0) if has_inst else 0
+                raise cint.NoEval('call %s' % nm)
+            atoms = {('global', 'NULL'): 0, ('elem', 'inst', 0, 'stop'): FN if has_member else 0, ('elem', 'inst', 0, 'start'): 1111, ('elem', 'inst', 0, 'join'): 2222,
+                     ('elem', 'inst', 0, 'running'): 3333}
+            r = cint.CInt(P, f, atoms=atoms, call=call).run([SELF_])
+            label = 'type %s' % ('without Start' if not has_inst else ('whose Start has no stop member' if not has_member else 'with a stop function'))
+            if r[0] == 'stuck':
+                unsup = '%s: %s' % (label, r[1])
+                continue
+            if not (r[0] == 'ret' and r[1] == 0):
+                bad_ret = bad_ret or '%s: %s' % (label, 'returns %s' % (r[1],) if r[0] == 'ret' else 'does not return')
+            want = [(FN, [SELF_])] if has_inst and has_member else []
+            if events != want:
+                bad_call = bad_call or '%s: calls %s' % (label, events or 'nothing')
+    if unsup and not (bad_ret or bad_call):
+        ctx.undecided(rule, 'stop_in:returns-null', site(f), 'stop_in leaves the evaluated fragment: ' + unsup)
+        ctx.undecided(rule, 'stop_in:calls-stop', site(f), 'stop_in leaves the evaluated fragment: ' + unsup)
+    else:
+        ctx.check(bad_ret is None, rule, 'stop_in:returns-null', site(f), 'stop_in returns NULL on every path, so the with loop runs its body exactly once', [bad_ret] if bad_ret else None)
+        ctx.check(bad_call is None, rule, 'stop_in:calls-stop', site(f), 'stop_in invokes the Start.stop member of the object\'s own type on the object (once, when the type has one; nothing else)',
+                  [bad_call] if bad_call else None)
     ctx.floor(rule, 5)
 
 
